@@ -2,7 +2,7 @@ import json
 import datetime as dt
 
 from mindsdb_sql.parser.ast.base import ASTNode
-from mindsdb_sql.parser.utils import indent
+from mindsdb_sql.parser.utils import indent, params_to_string
 
 
 class CreateChatBot(ASTNode):
@@ -37,14 +37,12 @@ class CreateChatBot(ASTNode):
     def get_string(self, *args, **kwargs):
 
         params = self.params.copy()
-        params['model'] = self.model.to_string() if self.model else 'NULL'
-        params['database'] = self.database.to_string()
+        params['model'] = self.model
+        params['database'] = self.database
         if self.agent:
-            params['agent'] = self.agent.to_string()
+            params['agent'] = self.agent
 
-        using_ar = [f'{k}={repr(v)}' for k, v in params.items()]
-
-        using_str = ', '.join(using_ar)
+        using_str = params_to_string(params)
 
         out_str = f'CREATE CHATBOT {self.name.to_string()} USING {using_str}'
         return out_str
@@ -66,8 +64,7 @@ class UpdateChatBot(ASTNode):
     def get_string(self, *args, **kwargs):
         params = self.params.copy()
 
-        set_ar = [f'{k}={repr(v)}' for k, v in params.items()]
-        set_str = ', '.join(set_ar)
+        set_str = params_to_string(params)
 
         out_str = f'UPDATE CHATBOT {self.name.to_string()} SET {set_str}'
         return out_str
